@@ -28,6 +28,7 @@ type Obligation struct {
 	Model  string
 	Clause string
 	Witness map[string]string // name -> term to evaluate in a model
+	X      *Exec              // the function run that produced it (counterexample construction)
 }
 
 type Loop struct {
@@ -114,7 +115,7 @@ func (x *Exec) emit(st *State, kind, detail, goal string, clause string) {
 		name += "[" + detail + "]"
 	}
 	o := &Obligation{Name: name, Kind: kind, Func: x.short, Assume: append([]string(nil), st.PC...), Goal: goal,
-		Trace: append([]string(nil), st.Trace...), Decls: x.D, Clause: clause, Pos: x.curPos}
+		Trace: append([]string(nil), st.Trace...), Decls: x.D, Clause: clause, Pos: x.curPos, X: x}
 	x.Obls = append(x.Obls, o)
 }
 
